@@ -750,7 +750,7 @@ class Oracle:
         if not isinstance(f, Clo):
             raise RunError("not a procedure")
         if depth > 200:
-            raise RunError("depth")
+            raise Unassigned()          # endless recursion: outside the envelope
         out = []
         for k, b, imm in f.items:
             a = arg if imm is None else imm
@@ -934,6 +934,76 @@ def names_depth0(e):
     return set()
 
 
+def names_any(e):
+    """(all global names an expression references at any depth, those it calls)"""
+    k = e[0]
+    refs, calls = set(), set()
+    if k == "glob":
+        refs.add(e[1])
+    elif k == "lam":
+        for it in e[2]:
+            if it[0] in ("read", "set", "call"):
+                refs.add(it[1])
+                if it[0] == "call":
+                    calls.add(it[1])
+        if e[3] is not None:
+            r, c = names_any(e[3])
+            refs |= r
+            calls |= c
+    elif k == "list":
+        for x in e[1]:
+            r, c = names_any(x)
+            refs |= r
+            calls |= c
+    elif k == "call":
+        r, c = names_any(e[1])
+        refs |= r
+        calls |= c
+        if e[1][0] == "glob":
+            calls.add(e[1][1])
+    elif k == "set":
+        refs.add(e[1])
+        r, c = names_any(e[2])
+        refs |= r
+        calls |= c
+    elif k == "setcell":
+        for x in (e[2], e[3]):
+            r, c = names_any(x)
+            refs |= r
+            calls |= c
+    elif k == "pair":
+        for x in (e[1], e[2]):
+            r, c = names_any(x)
+            refs |= r
+            calls |= c
+    elif k in ("car", "cdr", "box", "vec", "struct", "unbox", "vref", "sref"):
+        return names_any(e[1])
+    return refs, calls
+
+
+def unit_in_envelope(u):
+    """Generator envelope, checked statically (the shrinker must not leave it): a name is not defined by a unit after
+    an earlier form of that unit referred to it -- except a variable (kind x / j) that was only read or assigned
+    inside closure bodies; the engine rejects or constant-folds the other shapes (outside this property)."""
+    refs, calls, refs0 = set(), set(), set()
+    seen = set()
+    for f in u["forms"]:
+        e = f[2] if f[0] == "def" else f[1]
+        if f[0] == "def":
+            n = f[1]
+            if n in seen:
+                return False
+            seen.add(n)
+            selfref = f[2][0] == "pair" and f[2][1] == ["glob", n]      # the deliberate failing shape
+            if not selfref and n in refs and (n[0] not in "xj" or n in calls or n in refs0):
+                return False
+        r, c = names_any(e)
+        refs |= r
+        calls |= c
+        refs0 |= names_depth0(e)
+    return True
+
+
 MAXLEVEL = 5
 POOLS = {"x": 12, "f": 10, "t": 6, "p": 4, "j": 8, "b": 8}     # vars, unary functions, thunks, pairs, junk vars, holders
 MUTABLE = ("box", "vec")
@@ -1113,11 +1183,11 @@ class Gen:
                 return r
         return ["lam", arity, [], None, False], 0
 
-    def gen_top_expr(self):
+    def gen_top_expr(self, local=()):
         rng = self.rng
         r = rng.random()
         fs, ts, xs, ps = self.assigned("f"), self.assigned("t"), self.assigned("x") + self.assigned("j"), self.assigned("p")
-        hold = self.holders()
+        hold = self.holders(local)
         if hold and rng.random() < 0.2:
             n = rng.choice(sorted(hold))
             path, lv = hold[n]
@@ -1137,6 +1207,7 @@ class Gen:
             return ["call", ["glob", rng.choice(ts)], 0, True]
         if r < 0.6 and xs:
             return ["glob", rng.choice(xs)]
+        ps = [n for n in ps if n not in local]
         if r < 0.7 and ps:
             p = rng.choice(ps)
             v = self.o.env[p].val
@@ -1186,6 +1257,7 @@ class Gen:
         local = {}
         self.unit_paths = {}
         used0 = set()      # names referenced outside lambda bodies so far in this unit
+        used_any, used_call = set(), set()      # names referenced / called anywhere so far in this unit
         nforms = rng.choice([1, 1, 1, 2, 2, 3, 4])
         for _ in range(nforms):
             r = rng.random()
@@ -1196,15 +1268,26 @@ class Gen:
                 # either rejects the unit or constant-propagates the later value backwards (outside this property)
                 if name in local or name in used0:
                     continue
+                # nor one that an earlier closure of this unit refers to (it would silently resolve to the new binding:
+                # cycles; the engine also rejects an earlier call of a later non-lambda define) -- plain variables
+                # that were only read or assigned are fine and exercise "all defines first, then references"
+                if name in used_any and (kind not in "xj" or name in used_call):
+                    continue
                 e, lev = self.gen_value_expr(kind, local, defining=name)
                 forms.append(["def", name, e])
                 local[name] = (kind, lev)
                 used0 |= names_depth0(e)
+                r_, c_ = names_any(e)
+                used_any |= r_
+                used_call |= c_
                 self.stats["redefine" if name in self.o.env else "define"] += 1
             else:
-                e = self.gen_top_expr()
+                e = self.gen_top_expr(local)
                 forms.append(["expr", e])
                 used0 |= names_depth0(e)
+                r_, c_ = names_any(e)
+                used_any |= r_
+                used_call |= c_
         if not forms:
             forms.append(["expr", ["const", 1]])
         u = {"forms": forms}
@@ -1225,7 +1308,8 @@ class Gen:
                     forms.insert(rng.randrange(len(forms) + 1), ["def", n, ["pair", ["glob", n], ["const", 1]]])
                     self.stats["fail_selfref"] += 1
         elif r < 0.17:
-            bad = rng.choice([["fail"], ["car", ["const", 5]]] + ([["call", ["glob", rng.choice(self.assigned("x"))], 1, False]] if self.assigned("x") else []))
+            xs_ = [n for n in self.assigned("x") if n not in local]
+            bad = rng.choice([["fail"], ["car", ["const", 5]]] + ([["call", ["glob", rng.choice(xs_)], 1, False]] if xs_ else []))
             # mostly at the end (so every define of the unit has run); sometimes in the middle
             pos = len(forms) if rng.random() < 0.8 else rng.randrange(len(forms) + 1)
             forms.insert(pos, ["expr", bad])
@@ -1363,6 +1447,8 @@ def run_model(ck, histories, jit, cfg="cfg_now", trace=False):
 def shrink(ck, h, jit, budget=30):
     """Greedy removal of units while an untainted engine/oracle mismatch remains."""
     def bad(hh):
+        if not all(unit_in_envelope(u) for u in hh):
+            return False
         exp = oracle_run(hh)
         got = run_engine(ck, [hh], jit)[0]
         m = first_mismatch(exp, got)
